@@ -55,10 +55,15 @@ struct IWorld {
 
 inline thread_local int64_t g_cur_deleter = -1; // deleter id in effect while a node is being deleted
 inline bool g_teardown = false;
+inline bool g_nested = false;                   // this run: some nodes own a child that their destructor retires
+inline thread_local bool g_direct_delete = false; // the harness deletes a node that never became reachable
 inline bool g_published[8192];
 
 template <class R, bool LFRC>
 struct NodeT;
+
+template <class R, bool LFRC>
+void retire_child(NodeT<R, LFRC>* c);
 
 template <class R>
 struct DelT {
@@ -70,6 +75,7 @@ template <class R>
 struct NodeT<R, false> : R::template enable_concurrent_ptr<NodeT<R, false>, 1, DelT<R>> {
   int64_t id;
   uint64_t pat[2];
+  NodeT* child = nullptr; // nested retirement: retired by this node's destructor (wherever the reclaimer runs it)
   explicit NodeT(int64_t i) : id(i) {
     pat[0] = (uint64_t)i * 0x9e3779b97f4a7c15ULL;
     pat[1] = ~pat[0];
@@ -81,6 +87,7 @@ struct NodeT<R, false> : R::template enable_concurrent_ptr<NodeT<R, false>, 1, D
         xsim::fail("destroyed-not-retired", "published object %ld was destroyed although it was never retired", (long)id);
       obj_died(id, g_cur_deleter);
     }
+    if (child) retire_child<R, false>(child);
     pat[0] = pat[1] = 0xdeaddeaddeaddeadULL;
   }
 };
@@ -96,6 +103,7 @@ template <class R>
 struct NodeT<R, true> : R::template enable_concurrent_ptr<NodeT<R, true>, 1> {
   int64_t id;
   uint64_t pat[2];
+  NodeT* child = nullptr; // nested retirement: retired by this node's destructor (wherever the reclaimer runs it)
   explicit NodeT(int64_t i) : id(i) {
     mem_alive(pat, sizeof(pat));
     pat[0] = (uint64_t)i * 0x9e3779b97f4a7c15ULL;
@@ -108,10 +116,31 @@ struct NodeT<R, true> : R::template enable_concurrent_ptr<NodeT<R, true>, 1> {
         xsim::fail("destroyed-not-retired", "published object %ld was destroyed although it was never retired", (long)id);
       obj_died(id, -1);
     }
+    if (child) retire_child<R, true>(child);
     pat[0] = pat[1] = 0xdeaddeaddeaddeadULL;
     mem_dead(pat, sizeof(pat)); // type-stable memory: the payload must not be touched any more
   }
 };
+
+// A node's destructor hands its child to the reclaimer (a deleter that retires a further object: a container of
+// containers does this). It runs wherever the reclaimer destroys the parent - inside another thread's scan, inside an
+// epoch change, inside a thread_local destructor at thread exit - and the child has to be destroyed exactly once, by
+// its own deleter, like every other retired object (C02).
+template <class R, bool LFRC>
+void retire_child(NodeT<R, LFRC>* c) {
+  if (g_direct_delete || g_teardown) {
+    delete c; // the parent never became reachable (or the world is torn down): nobody else knows the child
+    return;
+  }
+  using CP = typename R::template concurrent_ptr<NodeT<R, LFRC>, 1>;
+  typename CP::guard_ptr g{typename CP::marked_ptr(c)};
+  int64_t did = c->id * 7 + 1;
+  xsim::obj_retired(c->id, LFRC ? -1 : did);
+  if constexpr (LFRC)
+    g.reclaim();
+  else
+    g.reclaim(DelT<R>{did});
+}
 
 template <class R, bool LFRC>
 struct World : IWorld {
@@ -215,7 +244,9 @@ struct World : IWorld {
 
   Node* make_node(TState& t) {
     int64_t id = t.next_id++;
-    return new Node(id);
+    Node* n = new Node(id);
+    if (g_nested && id % 3 == 0) n->child = new Node(t.next_id++);
+    return n;
   }
 
   void retire(Guard& g, int64_t id) {
@@ -244,7 +275,9 @@ struct World : IWorld {
           try {
             tmp.acquire(cells[a], std::memory_order_acquire);
           } catch (const std::runtime_error&) {
+            g_direct_delete = true;
             delete n;
+            g_direct_delete = false;
             on_exhausted(t, -1, 1);
             op_end(2);
             break;
@@ -260,7 +293,9 @@ struct World : IWorld {
           } else {
             g_published[nid] = false;
             tmp.reset();
+            g_direct_delete = true;
             delete n; // never became reachable
+            g_direct_delete = false;
           }
           op_end(ok, val_of(MPtr(n, mark)), oldv);
           break;
@@ -678,8 +713,10 @@ public:
     if (tr.hp_like && !tr.dynamic && !c18) nslots = tr.K - 1; // leave one slot for the temporaries of publish/unlink
     if (nslots < 1) nslots = 1;
     int maxops = g.tier ? 12 : 9;
-    p.params = {c18 ? 1 : 0, c17 ? 1 : 0, c02 ? 1 : 0};
-    bool plain = !c18 && !c17 && !c02 && !c15; // C01 / C03 / C16 programs: exits and adoption matter there too
+    bool plain = !c18 && !c17 && !c02 && !c15;
+    // nested retirement (a quarter of the C02 / C17 / plain programs): every third node owns a child
+    bool nested = (c02 || c17 || plain) && g.rng.chance(25);
+    p.params = {c18 ? 1 : 0, c17 ? 1 : 0, c02 ? 1 : 0, nested ? 1 : 0}; // C01 / C03 / C16 programs: exits and adoption matter there too
     if (c17 || (c02 && g.rng.chance(60)) || (plain && g.rng.chance(35))) {
       // generations: G x up to 3 overlapping threads; later threads start while earlier ones exit
       int G = c17 ? (g.rng.chance(50) ? 3 : 6) : 3;
@@ -740,6 +777,8 @@ public:
     bool c18 = !p.params.empty() && p.params[0];
     mode_c17 = p.params.size() > 1 && p.params[1];
     mode_c02 = p.params.size() > 2 && p.params[2];
+    g_nested = p.params.size() > 3 && p.params[3];
+    nteardown = g_nested ? 4 : 2; // a child retired by the last flush needs a flush of its own
     memset(g_published, 0, sizeof g_published);
     g_teardown = false;
     g_cur_deleter = -1;
@@ -747,7 +786,7 @@ public:
   }
   void exec(int ti, const Op& op) override { w->exec(ti, op); }
   void thread_end(int ti) override { w->thread_end(ti); }
-  int teardown_threads(const Program&) override { return nteardown + 1; }
+  int teardown_threads(const Program& p) override { return (p.params.size() > 3 && p.params[3] ? 4 : 2) + 1; }
   void teardown(int k) override {
     const Traits& tr = cfgs[cur_cfg].tr;
     if (k < nteardown) {
